@@ -457,6 +457,90 @@ def listselector_contract():
                             name="ListSelector._validate[check_on_set]")
 
 
+def listselector_unchecked_contract():
+    """`ListSelector._validate` with check_on_set=False: every list is accepted and the unknown objects
+    it names are added to `objects` — each exactly once, at the end, nothing removed or reordered (for
+    an ARBITRARY assigned list, by loop invariant; Skolem object x)."""
+    cls = "ListSelector"
+    slots = ["allow_None", "check_on_set", "names"]
+    holder = {}
+
+    def setup(I, st):
+        fields = {k: None for k in slots}
+        fields["_objects"] = mk_objects(I, st)
+        self, T = S.param_obj(I, st, cls, fields)
+        val = Sym(I.U.fresh("val"))
+        x = I.U.fresh("some_object")
+        seq0 = st.heap[fields["_objects"].oid].seq
+        info = {"self": self, "T": T, "val": val.t, "heap": {"_objects": fields["_objects"]},
+                "symbols": {"val": val.t}, "seq0:_objects": seq0}
+        holder.update({"x": x, "seq0": seq0, "objs": fields["_objects"]})
+        st.pc += wf_common(I, T) + [T["check_on_set"] == I.U.FALSE, vm.ty(val.t) == vm.TAG["list"], vm.tlen(val.t) >= 0,
+                                    # objects are listed once (representation invariant of the list view)
+                                    z3.Implies(z3.Contains(seq0, z3.Unit(x)), z3.BoolVal(True))]
+        return S.method(I, cls, "_validate", self), [val], {}, info
+
+    def added_of(I, st):
+        """cur == seq0 ++ added: the appended part, read off the structure of the sequence term"""
+        cur = st.heap[holder["objs"].oid].seq
+        A = st.ghost.get("added")
+        base = z3.Concat(holder["seq0"], A) if A is not None else holder["seq0"]
+        if cur.eq(base):
+            return cur, (A if A is not None else z3.Empty(vm.SeqV))
+        if z3.is_app(cur) and cur.decl().kind() == z3.Z3_OP_SEQ_CONCAT:
+            kids = cur.children()
+            flat = []
+            for kdd in kids:
+                if z3.is_app(kdd) and kdd.decl().kind() == z3.Z3_OP_SEQ_CONCAT:
+                    flat += kdd.children()
+                else:
+                    flat.append(kdd)
+            if flat and flat[0].eq(holder["seq0"]):
+                rest = flat[1:]
+                return cur, (rest[0] if len(rest) == 1 else z3.Concat(*rest)) if rest else z3.Empty(vm.SeqV)
+        raise OutOfReach("`_objects` is no longer the old list extended at the end")
+
+    def once(seq, x):
+        """x occurs at most once in seq (expanded along `++` / `[e]`)"""
+        if z3.is_app(seq):
+            kd = seq.decl().kind()
+            if kd in (z3.Z3_OP_SEQ_EMPTY, z3.Z3_OP_SEQ_UNIT):
+                return z3.BoolVal(True)
+            if kd == z3.Z3_OP_SEQ_CONCAT:
+                parts = seq.children()
+                conj = [once(c, x) for c in parts]
+                for a in range(len(parts)):
+                    for b in range(a + 1, len(parts)):
+                        conj.append(z3.Not(z3.And(z3.Contains(parts[a], z3.Unit(x)), z3.Contains(parts[b], z3.Unit(x)))))
+                return z3.And(conj)
+        return holder["onceF"](seq)
+
+    def inv(I, st, pre):
+        x = holder["x"]
+        holder.setdefault("onceF", z3.Function("listed_at_most_once", vm.SeqV, z3.BoolSort()))
+        cur, A = added_of(I, st)
+        return z3.And(once(A, x), z3.Implies(z3.Contains(holder["seq0"], z3.Unit(x)), z3.Not(z3.Contains(A, z3.Unit(x)))))
+
+    def havoc(I, st):
+        A = I.U.fresh_seq("added")
+        st.ghost["added"] = A
+        h = st.heap[holder["objs"].oid]
+        h.seq = z3.Concat(holder["seq0"], A)
+        h.fields.pop("$items", None)
+
+    def post(I, info, st, oc):
+        if isinstance(oc, Raise):
+            return [("an unchecked ListSelector accepts every list", z3.BoolVal(False))]
+        x = holder["x"]
+        cur, A = added_of(I, st)
+        return [("objects keep their old entries, in order, new ones are added at the end", cur == z3.Concat(holder["seq0"], A)),
+                ("no object is added twice, and none that was already listed", inv(I, st, None)),
+                ("frame/slots-unchanged", S.heap_unchanged(I, st, info["self"]))]
+    loops = {("ListSelector._validate", "val"): LoopSpec("val", inv=inv, heap=havoc, name="admit-each-unknown-object-once")}
+    return FunctionContract("%s:%s._validate" % (MOD_P, cls), PROP, setup, post, loops=loops,
+                            name="ListSelector._validate[check_on_set=False]")
+
+
 def wf_classselector(I, T):
     return [S.is_bool(I, T["is_instance"]), vm.ty(T["class_"]) == vm.TAG["type"]]
 
@@ -635,6 +719,7 @@ def contracts():
                     heap_slots={"_objects": mk_objects}, extra_post=selector_post))
         C[-1].qual = "%s:Selector._validate" % MOD_P
     C.append(listselector_contract())
+    C.append(listselector_unchecked_contract())
     for cls in ("ClassSelector", "Dict"):
         C.append(vc(cls, MOD_P, ["allow_None", "class_", "is_instance"], wf_classselector, valid_classselector))
         C[-1].qual = "%s:ClassSelector._validate" % MOD_P
